@@ -9,8 +9,9 @@ from C15_util import NAMES, ops_universe
 PID = "C15"
 PROP_FILES = ["Prop"]
 ALLOWED_AXIOMS = []
-RULE = ("histories of set k v / set (k,k') v / del k / delattr k (StrategyDict) / REJECTED assignment of an unhashable value "
+RULE = ("histories of set k v / set (k,k') v / del k / delattr k / sd.default = g / del sd.default (StrategyDict) / REJECTED assignment of an unhashable value "
         "(list, dict, set, bytearray, object with __eq__ and no __hash__: TypeError, a MultiKeyDict must be unchanged) / "
+        "several objects in one history (fresh ones and MultiKeyDicts built from existing MultiKeyDict / StrategyDict objects in four spellings, every object observed after every step: the copy shows the source's view, afterwards each follows its own model) / "
         "read-only lookups (d[k], d[(k,)], key2keys, value2keys of stored and never stored values, in, iteration, len/keys/"
         "values/items/repr, hasattr, calling the dict, lookups with unhashable arguments) on a fresh dict or on "
         "MultiKeyDict(dict); values of one equality class are given through DIFFERENT objects (1 / 1.0 / Fraction / Decimal / "
@@ -21,12 +22,26 @@ RULE = ("histories of set k v / set (k,k') v / del k / delattr k (StrategyDict) 
         "3 keys x 2 values + seeded random longer ones for every value kind; non-trivial = at least one value owning >= 2 "
         "keys at some point and at least one deletion or overwrite of an existing key")
 EXHAUSTIVE = {"quick": False, "thorough": True}
-trusted_base = ["keys are modelled as naturals (ints for MultiKeyDict, attribute-safe names 'aa'..'gg' for StrategyDict; equal keys are given through different objects: 1 / 1.0 / Fraction / Decimal, separately built strings); "
-                "names colliding with class attributes of StrategyDict ('default', 'strategy', dict methods) are outside the model",
-                "values are modelled by their equality class (a natural); which of several equal objects is kept is not modelled"]
+trusted_base = ["keys are modelled as naturals (ints, strings or - for StrategyDict and for objects built from one - names; equal keys "
+                "are given through different objects: 1 / 1.0 / Fraction / Decimal / True, separately built strings)",
+                "StrategyDict names include names spelled like class attributes (copy, get, pop, update, clear, items, strategy, "
+                "value2keys ...) and dunder-like names (__len__, __iter__, __call__, __getitem__, __eq__ ...): on the unchanged code "
+                "the instance attribute shadows the class attribute and getattr(sd, name) IS the item. Left out, because the "
+                "unchanged code itself stops working once such a name is registered (FINDINGS below): values, keys, key2keys, "
+                "default, _keys_dict, _inv_dict, __name__, __doc__, __class__, __dict__",
+                "values are modelled by their equality class (a natural); which of several equal objects is kept is not modelled",
+                "copy.copy / copy.deepcopy / pickle of a non-empty MultiKeyDict raise KeyError on the unchanged code (the reduce "
+                "protocol restores _keys_dict before the items are assigned); the property text does not mention them and the "
+                "generators build copies only with MultiKeyDict(other) / MultiKeyDict(dict(other)) / MultiKeyDict(other.copy()) / "
+                "MultiKeyDict(list(other.items()))"]
 ASSUMPTIONS = ["CPython dict ordering semantics (insertion order, update in place)",
                "a StrategyDict assignment rejected with TypeError has already released its names (the code deletes them "
                "first); the specification states that behaviour for StrategyDict and 'unchanged' for MultiKeyDict"]
+FINDINGS = ["StrategyDict names that break the UNCHANGED code (not generated): 'values' (StrategyDict.__iter__ calls self.values()), "
+            "'keys' (dict(sd) / MultiKeyDict(sd) call sd.keys()), 'key2keys' (del sd[name] calls self.key2keys), 'default' (the "
+            "name is the default slot itself), '_keys_dict' / '_inv_dict' / '__name__' (instance attributes overwritten by setattr), "
+            "'__doc__' / '__class__' / '__dict__' (setattr raises AFTER the item was stored: item without attribute)",
+            "copy.copy(mkd) / copy.deepcopy(mkd) raise KeyError for a non-empty MultiKeyDict"]
 
 _GEN_CALLS = []   # tiers gen_dict was called with in this process: a 'thorough' call after a 'quick' one is the
                   # driver's widened search after a broken obligation and must stay bounded
@@ -57,7 +72,7 @@ def gen_dict(tier, rng):
     for _ in range(100 if tier == "quick" else (100 if widened else 3000)):
       yield _legacy(strategy, [rng.choice(U2) for _ in range(rng.randrange(8, 41))], "long", 6, 4)
     # round 2: value kinds, rejected assignments, lookups, constructor argument
-    per = {"quick": 1400, "thorough": 20000}[tier] if not widened else 2000   # widened search: ~6 000 extra cases in all
+    per = {"quick": 1100, "thorough": 20000}[tier] if not widened else 2000   # widened search: ~6 000 extra cases in all
     for i in range(per):
       kind = kinds[i % len(kinds)]
       if i % 10 == 0:
@@ -74,7 +89,7 @@ def gen_dict(tier, rng):
 def _expect(op):
   """exception type an operation may raise (recorded as raised); anything else aborts the case"""
   if op[0] == "del": return (KeyError,)
-  if op[0] == "delattr": return (AttributeError,)
+  if op[0] in ("delattr", "deldef"): return (AttributeError,)
   if op[0] == "setbad": return (TypeError,)
   if op[0] == "obs":
     if op[1] in ("get", "k2k"): return (KeyError,)
@@ -82,44 +97,54 @@ def _expect(op):
   return ()
 
 
-def _observe(d, op, K, V, strategy):
+def _observe(d, op, K, V, strategy, names):
+  from audiolazy.lazy_core import MultiKeyDict, StrategyDict
   qk, arg, var = op[1], op[2], op[3]
   if qk == "get": d[K(arg)]
   elif qk == "gett":
     try: d[(K(arg),)]
     except KeyError: pass
-  elif qk == "k2k": d.key2keys(K(arg))
-  elif qk == "v2k": d.value2keys(V(arg, var))
-  elif qk == "in": (K(arg) in d, (K(arg),) in d, d.__contains__(K(arg)))
+  elif qk == "k2k": MultiKeyDict.key2keys(d, K(arg))
+  elif qk == "v2k": MultiKeyDict.value2keys(d, V(arg, var))
+  elif qk == "in": (K(arg) in d, (K(arg),) in d, dict.__contains__(d, K(arg)))
   elif qk == "iter":
     list(d); next(iter(d), None)
     for _ in d: break
-  elif qk == "misc": (len(d), list(d.keys()), list(d.values()), list(d.items()), repr(d), bool(d), d.copy(), d == d)
-  elif qk == "hasattr": (hasattr(d, NAMES[arg] * 2), getattr(d, NAMES[arg] * 2, None), hasattr(d, "default"))
+  elif qk == "misc": (len(d), list(dict.keys(d)), list(dict.values(d)), list(dict.items(d)), repr(d), bool(d), dict.copy(d), d == d)
+  elif qk == "hasattr": (hasattr(d, names[arg]), getattr(d, names[arg], None), hasattr(d, "default"))
   elif qk == "call":
     if strategy: (d(), d.default)
     else: len(d)
   elif qk == "bad":
     bad = U.make_bad(U.BAD_KINDS[var % len(U.BAD_KINDS)])
-    [lambda: d[bad], lambda: d.key2keys(bad), lambda: d.value2keys(bad)][arg % 3]()
+    [lambda: d[bad], lambda: MultiKeyDict.key2keys(d, bad), lambda: MultiKeyDict.value2keys(d, bad)][arg % 3]()
 
 
-def _view(d, c, K, unK, vals, raised):
-  strategy, nk, nv = c["strategy"], c["nk"], c["nv"]
+def _view(d, strategy, nk, nv, K, unK, vals, raised):
+  """every observable of one object; class-level calls, so that a strategy NAMED like a method cannot hide it"""
+  from audiolazy.lazy_core import MultiKeyDict
   view = {"raised": raised}
   get, k2k = [], []
   for k in range(nk):
     try: get.append(vals.cls(d[K(k)]))
     except KeyError: get.append(None)
-    try: k2k.append([unK(x) for x in d.key2keys(K(k))])
+    try: k2k.append([unK(x) for x in MultiKeyDict.key2keys(d, K(k))])
     except KeyError: k2k.append(None)
   view["get"], view["k2k"] = get, k2k
-  view["v2k"] = [[unK(x) for x in d.value2keys(vals.make(v, v))] for v in range(1, nv + 2)]
+  view["v2k"] = [[unK(x) for x in MultiKeyDict.value2keys(d, vals.make(v, v))] for v in range(1, nv + 2)]
   view["len"] = len(d)
-  view["keys"] = [[unK(x) for x in t] for t in d.keys()]
+  view["keys"] = [[unK(x) for x in t] for t in dict.keys(d)]
   view["iter"] = [vals.cls(x) for x in d]
   if strategy:
-    view["attr"] = [vals.cls(vars(d)[K(k)]) if K(k) in vars(d) else None for k in range(nk)]
+    # the property: every name is exposed as an attribute equal to the item (getattr, not only vars)
+    attr = []
+    for k in range(nk):
+      if K(k) in vars(d):
+        x = getattr(d, K(k))
+        attr.append(vals.cls(x) if x is vars(d)[K(k)] else 998)
+      else:
+        attr.append(None)
+    view["attr"] = attr
     inst = vars(d).get("default")
     called = d()
     dv = None if called is NotImplemented else called
@@ -131,48 +156,93 @@ def _view(d, c, K, unK, vals, raised):
   return view
 
 
+def _apply(d, strategy, op, K, V, vk, names):
+  """one operation on one object; returns True when it raised the exception it may raise"""
+  from audiolazy.lazy_core import StrategyDict
+  try:
+    if op[0] == "set":
+      ks = [K(k) for k in op[1]]
+      var = op[3] if len(op) > 3 else 0
+      if len(op) > 4 and strategy:   # through the decorator factory
+        keep = vk == "bound" or var % 2 == 0
+        StrategyDict.strategy(d, *ks, keep_name=keep)(V(op[2], var))
+      else:
+        d[tuple(ks) if len(ks) > 1 or var % 3 == 2 else ks[0]] = V(op[2], var)
+    elif op[0] == "setbad":
+      ks = [K(k) for k in op[1]]
+      d[tuple(ks) if len(ks) > 1 else ks[0]] = U.make_bad(op[2])
+    elif op[0] == "del":
+      del d[K(op[1])]
+    elif op[0] == "delattr":
+      delattr(d, K(op[1]))
+    elif op[0] == "setdef":
+      d.default = V(op[1], op[2])
+    elif op[0] == "deldef":
+      del d.default
+    else:
+      _observe(d, op, K, V, strategy, names)
+  except _expect(op):
+    return True
+  return False
+
+
+def _keyfuns(c, strategy_names):
+  """K0(k): the k-th key; unK: back to the index.  Names (strings) when the case holds a StrategyDict."""
+  if strategy_names:
+    names = c.get("names") or [n * 2 for n in NAMES]
+    return names, (lambda k: names[k]), (lambda s: names.index(s))
+  if c.get("keys") == "str":
+    names = ["k%d" % i for i in range(8)]
+    return names, (lambda k: names[k]), (lambda s: names.index(s))
+  return [n * 2 for n in NAMES], (lambda k: k), int
+
+
 def run_dict(c):
   import audiolazy
   from audiolazy.lazy_core import MultiKeyDict, StrategyDict
-  strategy, nv = c["strategy"], c["nv"]
+  strategy, nk, nv = c["strategy"], c["nk"], c["nv"]
   vals = U.Values(c["vk"], nv)
   V = vals.make
   kvar = c.get("kvar", False)   # keys too are given through equal-but-distinct objects
+  names, K0, unK = _keyfuns(c, strategy)
+  isnum = not strategy and c.get("keys") != "str"
   if strategy:
     d = StrategyDict("verif_sd")
-    K0 = lambda k: NAMES[k] * 2
-    unK = lambda s: NAMES.index(s[0])
   else:
-    K0 = lambda k: k
-    unK = int
-    d = MultiKeyDict(dict((U.key_variant(k, var, False) if kvar else k, V(v, var)) for k, v, var in c["init"])) \
+    d = MultiKeyDict(dict((U.key_variant(K0(k), var, not isnum) if kvar else K0(k), V(v, var)) for k, v, var in c["init"])) \
         if c["init"] else MultiKeyDict()
-  views = [_view(d, c, K0, unK, vals, False)]
+  views = [_view(d, strategy, nk, nv, K0, unK, vals, False)]
   for i, op in enumerate(c["ops"]):
-    raised = False
-    K = (lambda k: U.key_variant(K0(k), i + k, strategy)) if kvar else K0
-    try:
-      if op[0] == "set":
-        ks = [K(k) for k in op[1]]
-        var = op[3] if len(op) > 3 else 0
-        if len(op) > 4 and strategy:   # through the decorator factory
-          keep = c["vk"] == "bound" or var % 2 == 0
-          d.strategy(*ks, keep_name=keep)(V(op[2], var))
-        else:
-          d[tuple(ks) if len(ks) > 1 or var % 3 == 2 else ks[0]] = V(op[2], var)
-      elif op[0] == "setbad":
-        ks = [K(k) for k in op[1]]
-        d[tuple(ks) if len(ks) > 1 else ks[0]] = U.make_bad(op[2])
-      elif op[0] == "del":
-        del d[K(op[1])]
-      elif op[0] == "delattr":
-        delattr(d, K(op[1]))
-      else:
-        _observe(d, op, K, V, strategy)
-    except _expect(op):
-      raised = True
-    views.append(_view(d, c, K0, unK, vals, raised))
+    K = (lambda k: U.key_variant(K0(k), i + k, not isnum)) if kvar else K0
+    raised = _apply(d, strategy, op, K, V, c["vk"], names)
+    views.append(_view(d, strategy, nk, nv, K0, unK, vals, raised))
   return {"view0": views[0], "views": views[1:]}
+
+
+def run_multi(c):
+  import audiolazy
+  from audiolazy.lazy_core import MultiKeyDict, StrategyDict
+  nk, nv = c["nk"], c["nv"]
+  vals = U.Values(c["vk"], nv)
+  V = vals.make
+  kvar = c.get("kvar", False)
+  names, K0, unK = _keyfuns(c, c["keys"] == "names")
+  isnum = c["keys"] == "ints"
+  objs, kinds, steps = [], [], []
+  for i, m in enumerate(c["ops"]):
+    raised = False
+    K = (lambda k: U.key_variant(K0(k), i + k, not isnum)) if kvar else K0
+    if m[0] == "new":
+      objs.append(StrategyDict("verif_sd%d" % i) if m[1] else MultiKeyDict()); kinds.append(bool(m[1]))
+    elif m[0] == "cast":
+      src = objs[m[1]]
+      how = m[2] % 4
+      arg = [src, dict(src), dict.copy(src), list(dict.items(src))][how] if how else src
+      objs.append(MultiKeyDict(arg)); kinds.append(False)
+    else:
+      raised = _apply(objs[m[1]], kinds[m[1]], m[2], K, V, c["vk"], names)
+    steps.append({"raised": raised, "views": [_view(d, st, nk, nv, K0, unK, vals, False) for d, st in zip(objs, kinds)]})
+  return {"steps": steps}
 
 
 def _ot(t):
@@ -197,6 +267,8 @@ def _lit_op(op):
   if op[0] == "setbad": return "OSetBad %s" % ks(op[1])
   if op[0] == "del": return "ODel %d" % op[1]
   if op[0] == "delattr": return "ODelAttr %d" % op[1]
+  if op[0] == "setdef": return "OSetDefault %d" % op[1]
+  if op[0] == "deldef": return "ODelDefault"
   q = {"get": "(QGet %d)" % op[2], "k2k": "(QK2K %d)" % op[2], "v2k": "(QV2K %d)" % op[2], "bad": "QBad"}.get(op[1], "QPure")
   return "OObs %s" % q
 
@@ -226,5 +298,40 @@ def nontrivial_dict(c, o):
   return multi and overwrite
 
 
+def lit_multi(c, o):
+  ms = []
+  for m in c["ops"]:
+    if m[0] == "new": ms.append("MNew %s" % L.boolean(m[1]))
+    elif m[0] == "cast": ms.append("MCast %d" % m[1])
+    else: ms.append("MOn %d (%s)" % (m[1], _lit_op(m[2])))
+  steps = ["(%s, %s)" % (L.boolean(st["raised"]), L.lst([_lit_view(v) for v in st["views"]])) for st in o.get("steps", [])]
+  return "(HC %s %s %s %s)" % (L.lst([str(k) for k in range(c["nk"])]), L.lst([str(v) for v in range(1, c["nv"] + 2)]),
+                              L.lst(ms), L.lst(steps))
+
+
+def gen_multi(tier, rng):
+  widened = tier == "thorough" and "quick" in _GEN_CALLS_M
+  _GEN_CALLS_M.append(tier)
+  n = 1500 if widened else {"quick": 1000, "thorough": 15000}[tier]
+  for i in range(n):
+    if i % 8 == 0:
+      yield U.rand_multi(rng, 5, 3, 10, 24, "multi-long")
+    else:
+      yield U.rand_multi(rng, 3, 2, 3, 10, "multi")
+
+
+def nontrivial_multi(c, o):
+  """a MultiKeyDict built from a non-empty object, and an update of source or copy afterwards"""
+  seen_cast = False
+  for m, st in zip(c["ops"], o.get("steps", [])):
+    if m[0] == "cast" and st["views"][m[1]]["len"] > 0:
+      seen_cast = True
+    elif seen_cast and m[0] == "on" and m[2][0] in ("set", "del", "delattr"):
+      return True
+  return False
+
+
+_GEN_CALLS_M = []
 IMPORTS = "From AL Require Import C15.Model C15.Spec C15.Check.\nOpen Scope nat_scope."
-FAMILIES = {"dict": Family("dict", IMPORTS, "dcase", "corr_dict", "holds_dict", gen_dict, run_dict, lit_dict, nontrivial_dict)}
+FAMILIES = {"dict": Family("dict", IMPORTS, "dcase", "corr_dict", "holds_dict", gen_dict, run_dict, lit_dict, nontrivial_dict),
+            "multi": Family("multi", IMPORTS, "hcase", "corr_multi", "holds_multi", gen_multi, run_multi, lit_multi, nontrivial_multi)}
